@@ -379,6 +379,7 @@ func buildHistory(rt *rapid.T, full bool) (*histBuilder, string) {
 	b.send(other[0], &oracletypes.MsgUpdateFeed{Creator: other[0].Bech, Name: "jklprice", Data: `{"price":"0.31","24h_change":"1"}`})
 	b.send(b.owners[0], newMsgRegisterName(b.owners[0].Bech, "alpha.jkl", 2, `{"a":"b"}`, true))
 	b.send(b.owners[1], newMsgRegisterName(b.owners[1].Bech, "beta.ibc", 1, "{}", false))
+	b.send(b.owners[1], newMsgRegisterName(b.owners[1].Bech, "alpha-beta.jkl", 1, "{}", false)) // a name that extends another one by a hyphenated tail
 	b.send(b.owners[0], rnstypes.NewMsgAddRecord(b.owners[0].Bech, "alpha.jkl", "www", other[0].Bech, "{}"))
 	b.send(b.owners[0], newMsgList(b.owners[0].Bech, "alpha.jkl", sdk.NewInt64Coin("ujkl", 5000)))
 	b.send(other[0], rnstypes.NewMsgBid(other[0].Bech, "beta.ibc", sdk.NewInt64Coin("ujkl", 700)))
